@@ -28,7 +28,7 @@ func init() {
 	})
 }
 
-var c13Forms = []string{"snps", "variants-gb", "variants-gff", "samvariants"}
+var c13Forms = []string{"snps", "variants-gb", "variants-gff", "samvariants", "variants-dupfeat"}
 
 func genC13(r *Rand, tier string, ord int) *Trial {
 	form := c13Forms[ord%len(c13Forms)]
@@ -104,10 +104,27 @@ func genC13(r *Rand, tier string, ord int) *Trial {
 		c = genCmdCase(r, "samvariants", caseSize{})
 		c.Opts.Aggregate = false
 		c.Opts.AppendSNP = r.P(0.4)
+	case "variants-dupfeat":
+		// the same printed mutation arising in either copy of a repeated coding segment (two features, one name)
+		ref, an, all := genDupFeature(r, r.Range(2, 9))
+		c = &Case{Cmd: "variants", Files: map[string]string{"msa": all.FASTA(genLayout(r))}}
+		c.Opts.RefID = "ref"
+		if r.Bool() {
+			c.Files["anno"], c.Opts.AnnoSuffix = an.GenBank(ref), "gb"
+		} else {
+			c.Files["anno"], c.Opts.AnnoSuffix = an.GFF(ref, true), "gff"
+		}
+		c.Opts.Start, c.Opts.End = -1, -1
+		c.Opts.AppendSNP = r.P(0.4)
+		ab, _ := json.Marshal(an)
+		annoJSON = string(ab)
 	}
 	c.Opts.Threads = 1
 	c.Opts.Threshold = 0
 	t := &Trial{Kind: form, Case: *c, Params: map[string]string{"thr_mode": strconv.Itoa(r.Intn(5)), "thr_u": strconv.FormatFloat(r.Float(), 'g', -1, 64)}}
+	if r.P(0.25) {
+		t.Params["cli"] = "1"
+	}
 	if annoJSON != "" {
 		t.Params["anno"] = annoJSON // the feature table, so that aa: rows can be placed on the genome too
 	}
@@ -224,7 +241,15 @@ func checkC13(t *Trial, ctx *Ctx) *Failure {
 		a := t.Case
 		a.Opts.Aggregate = true
 		a.Opts.Threshold = thr
-		res := ctx.Run(t, i, &a)
+		ea := &a
+		if t.Params["cli"] == "1" && i%2 == 1 {
+			// through the real command line: how --aggregate and --threshold reach the library
+			if cc, ok := cliCase(&a); ok {
+				ea = cc
+				ctx.Probe("aggregate_through_command_line", 1)
+			}
+		}
+		res := ctx.Run(t, i, ea)
 		if res.Out.Kind != simrt.Returned || res.Err != nil {
 			t.Runs = []RunCfg{t.Runs[0], t.Runs[i]}
 			return &Failure{Class: fmt.Sprintf("C13/aggregate-failed{%s}", t.Kind), Detail: "per-sequence mode succeeded but --aggregate did not: " + res.Describe()}
